@@ -281,3 +281,19 @@ func TestFindingC08MultigetCompNamesAndExpandReachBackend(t *testing.T) {
 		t.Errorf("expand range lost: %+v", b.compReq.Expand)
 	}
 }
+
+// ---------------------------------------------------------------------------------------------
+// C12: the backend operation belonging to the level. OPEN finding (not repaired): DELETE at any depth is
+// handed to DeleteCalendarObject, e.g. for a calendar collection, the home set or the principal.
+func TestFindingC12DeleteAboveObjectDepthReachesDeleteCalendarObject(t *testing.T) {
+	for _, p := range []string{"/user/calendars/a/", "/user/calendars/", "/user/"} {
+		b := &findingsBackend{}
+		req := httptest.NewRequest("DELETE", p, nil)
+		w := httptest.NewRecorder()
+		h := Handler{Backend: b}
+		h.ServeHTTP(w, req)
+		if b.deletes != 0 {
+			t.Errorf("DELETE %s (not a calendar object) reached DeleteCalendarObject, status %d", p, w.Result().StatusCode)
+		}
+	}
+}
